@@ -72,7 +72,22 @@ def check(model, rep):
         'element / sub-array per loop iteration on every path; precision and nd forwarding; exhaustive dispatch on dims with the '
         'raising probes inside the catch-all; round() only under a not-isinf fact.')
     disp = model.func(MOD, 'disp')
-    dispa = model.func(MOD, 'dispa')
+
+    def flat_func(name):
+        """the function with the module's private helpers inlined (AST partial evaluation; structure only)"""
+        import copy
+        from ..engine import peval, tv
+        f = model.func(MOD, name)
+        flat = peval.propagate_copies(peval.flatten_function(tv.toplevel_funcs(f.module.tree), f.node, depth=2, impure=True))
+        ast.fix_missing_locations(flat)
+        g = copy.copy(f)
+        g.node = flat
+        for parent in ast.walk(flat):
+            for ch in ast.iter_child_nodes(parent):
+                f.module.parents[ch] = parent
+        f.module.parents[flat] = f.module.parents.get(f.node)
+        return g
+    dispa = flat_func('dispa')
     roles = canonicalise_roles(dispa)
     rep.note('locals of dispa by role: %s' % {v: k for k, v in sorted(roles.items())})
     # ---------------------------------------------------------------- R20.1
@@ -175,7 +190,8 @@ def check(model, rep):
             fm = [n for n in ast.walk(lp) if isinstance(n, ast.Assign) and src(n.targets[0]) == 'fmat']
             ok_f = len(fm) == 1 and src(fm[0].value).replace(' ', '').replace('"', "'") == "'{:'+str(%s+6)+'.'+str(t_nd)+'f}'" % nd
             tnd = [n for n in ast.walk(lp) if isinstance(n, ast.Assign) and src(n.targets[0]) == 't_nd']
-            first = sorted(tnd, key=lambda n: n.lineno)[0] if tnd else None
+            top = [n for n in lp.body if isinstance(n, ast.Assign) and src(n.targets[0]) == 't_nd']      # by position, not by line number
+            first = top[0] if top else None
             ok_t = first is not None and src(first.value) == nd
             # t_nd is only reduced under the |x| >= 9999 guard
             reduce_ok = True
@@ -192,8 +208,29 @@ def check(model, rep):
             rep.ob('R20.2', dispa, 'dims==1: width nd+6, precision nd unless |x| >= 9999', ok_f and ok_t and reduce_ok,
                    'format spec %s / precision start %s / reduction guarded %s' % (src(fm[0].value) if fm else '?', src(first.value) if first is not None else '?', reduce_ok), line=lp.lineno)
             # appended to the line and the line appended to the result
-            app = [n for n in lp.body if isinstance(n, ast.Assign) and src(n.targets[0]) == 'h' and 'fmat.format' in src(n.value) and src(n.value).startswith('h +')]
-            rep.ob('R20.2', dispa, 'dims==1: formatted element appended to the row', len(app) == 1, 'row accumulation not found', line=lp.lineno)
+            # the formatted text flows (through the row string, or a list of cells that is joined) into the returned accumulator
+            tainted = set()
+
+            def is_src(e_):
+                return any((isinstance(c_, ast.Call) and isinstance(c_.func, ast.Attribute) and c_.func.attr == 'format') or
+                           (isinstance(c_, ast.Name) and c_.id in tainted) for c_ in ast.walk(e_))
+            changed = True
+            while changed:
+                changed = False
+                for n in [x for s_ in body for x in ast.walk(s_)]:
+                    tgt = None
+                    if isinstance(n, ast.Assign) and len(n.targets) == 1 and isinstance(n.targets[0], ast.Name) and is_src(n.value):
+                        tgt = n.targets[0].id
+                    elif isinstance(n, ast.AugAssign) and isinstance(n.target, ast.Name) and is_src(n.value):
+                        tgt = n.target.id
+                    elif isinstance(n, ast.Call) and isinstance(n.func, ast.Attribute) and n.func.attr in ('append', 'extend') \
+                            and isinstance(n.func.value, ast.Name) and n.args and is_src(n.args[0]):
+                        tgt = n.func.value.id
+                    if tgt is not None and tgt not in tainted:
+                        tainted.add(tgt)
+                        changed = True
+            rep.ob('R20.2', dispa, 'dims==1: formatted element appended to the row', 'strr' in tainted,
+                   'the formatted elements never reach the returned string (they flow into %s only)' % sorted(tainted), line=lp.lineno)
             # round() guard
             found = {}
 
@@ -306,7 +343,7 @@ def check(model, rep):
     DTYPES = ('floating', 'integer', 'bool')
     lacking = [c for c in DTYPES if npstub.scalar_has_method(c, '__round__') == 'no']
     n_round = 0
-    for fi in (dispa, model.func(MOD, 'disptex')):
+    for fi in (dispa, flat_func('disptex')):
         matp = fi.params[0]
         found5 = {}
 
